@@ -85,7 +85,16 @@ def one(hp, gen_name, opts):
     for name, idx in opts['sub_fixtures'].items():
       if idx < len(kids):
         sf[name] = kids[idx]
-  rec = {'tid': 0, 'heap': hp, 'gen': gen_name,
+  # is a sub-fixture's own root referenced more than once?  (positions in the canonical heap:
+  # daglish.iterate visits in first-visit depth-first order, which is the canonical numbering)
+  root_shared = False
+  if opts['sub_fixtures']:
+    idxs = [i for i in range(2, len(hp) + 1) if hp[i - 1]['k'] in ('config', 'partial', 'tagged')]
+    if len(idxs) != len(kids):
+      raise common.MachineryError('sub-fixture candidates do not line up with the abstract heap')
+    refc = collections.Counter(-it['val'] for o in hp for it in o['items'] if it['val'] < 0)
+    root_shared = any(refc[idxs[j]] > 1 for j in opts['sub_fixtures'].values() if j < len(idxs))
+  rec = {'tid': 0, 'heap': hp, 'gen': gen_name, 'sub_root_shared': root_shared,
          'opts': {'sub': sorted(opts['sub_fixtures'].values()) if opts['sub_fixtures'] else [],
                   'cx': -1 if opts['max_expression_complexity'] is None else opts['max_expression_complexity'],
                   'hist': opts['include_history']},
@@ -131,6 +140,117 @@ def work(lines):
   return {'lines': len(lines), 'nontrivial': 0}, [], recs
 
 
+def tree_heap(rng):
+  """A tree of 5..8 Configs plus one or two extra references (sharing below the sub-fixture candidates)."""
+  n = rng.randint(5, 8)
+  objs = {1: {'k': 'config', 'fn': rng.randint(1, 4), 'items': {}}}
+  kids = collections.defaultdict(list)
+  for i in range(2, n + 1):
+    while True:
+      p = rng.randint(max(1, i - 3), i - 1)
+      free = [s for s in (1, 2, 3) if s not in objs[p]['items']]
+      if free:
+        break
+    objs[p]['items'][rng.choice(free)] = -i
+    objs[i] = {'k': 'config', 'fn': rng.randint(1, 4), 'items': {}}
+    kids[p].append(i)
+  def desc(i):
+    out = []
+    for k in kids[i]:
+      out += [k] + desc(k)
+    return out
+  for _ in range(rng.randint(1, 2)):
+    src = rng.randint(1, n - 1)
+    cands = [j for j in range(src + 1, n + 1) if not kids[j]] or [n]   # refer to leaves: single-path sub-fixture roots
+    free = [s for s in (1, 2, 3) if s not in objs[src]['items']]
+    if free:
+      objs[src]['items'][rng.choice(free)] = -rng.choice(cands)
+  for i in range(1, n + 1):
+    free = [s for s in (1, 2, 3) if s not in objs[i]['items']]
+    if free and rng.random() < 0.5:
+      objs[i]['items'][rng.choice(free)] = rng.randint(1, 3)
+  heap = [{'k': 'config', 'fn': objs[i]['fn'],
+           'items': [{'key': s, 'val': v, 'tg': 0} for s, v in sorted(objs[i]['items'].items())]}
+          for i in range(1, n + 1)]
+  r, _ = H.realize(heap, 1)
+  return H.project(r)[0]
+
+
+def larger_work(seeds):
+  """Random configurations of 4..7 objects x sub-fixture subsets in both orders x both generators."""
+  common.quiet_logging()
+  recs = []
+  for seed in seeds:
+    rng = random.Random(seed)
+    if seed % 2:
+      hp = tree_heap(rng)
+    else:
+      hp = c02.random_heap(rng, rng.randint(4, 7), kinds=('config', 'config', 'config', 'config', 'list', 'dict'))
+    if hp[0]['k'] != 'config':
+      continue
+    nk = sum(1 for o in hp[1:] if o['k'] == 'config')
+    if nk == 0:
+      continue
+    subsets = []
+    for _ in range(3):
+      r = rng.randint(1, min(3, nk))
+      picks = rng.sample(range(nk), r)
+      subsets.append(picks)
+      subsets.append(list(reversed(picks)))
+    for picks in subsets:
+      sf = collections.OrderedDict((f'sub_{chr(97 + n)}', j) for n, j in enumerate(picks))
+      for cx in (None, rng.choice([0, 1, 2])):
+        o = {'sub_fixtures': sf, 'max_expression_complexity': cx, 'include_history': False}
+        for g in ('new', 'ac'):
+          rec = one(hp, g, o)
+          rec['opts']['sub'] = list(picks)     # in the order given
+          recs.append(rec)
+  return recs
+
+
+def _reach(h, i, acc=None):
+  acc = acc if acc is not None else set()
+  if i in acc:
+    return acc
+  acc.add(i)
+  for it in h[i - 1]['items']:
+    if it['val'] < 0:
+      _reach(h, -it['val'], acc)
+  return acc
+
+
+def sub_fixture_class(h, subs):
+  """Structural class of (configuration, sub-fixture choice); used to identify known findings narrowly."""
+  if not subs:
+    return 'none'
+  parents = collections.defaultdict(list)
+  for i, o in enumerate(h, 1):
+    for it in o['items']:
+      if it['val'] < 0:
+        parents[-it['val']].append(i)
+  memo = {}
+  def npaths(i):
+    if i == 1:
+      return 1
+    if i not in memo:
+      memo[i] = sum(npaths(p) for p in parents[i])
+    return memo[i]
+  idxs = [i for i in range(2, len(h) + 1) if h[i - 1]['k'] in ('config', 'partial', 'tagged')]
+  roots = [idxs[j] for j in subs if j < len(idxs)]
+  if any(npaths(r) > 1 for r in roots):
+    return 'sub-fixture-root-reachable-by-several-paths'
+  shared = [i for i in parents if len(parents[i]) > 1]
+  if any((_reach(h, s) - {s}) & set(shared) for s in shared):
+    return 'shared-object-inside-shared-object'
+  for a in roots:
+    for b in roots:
+      if a != b and b in _reach(h, a):
+        rb = _reach(h, b)
+        if any(o in rb and o != b and any(p not in rb for p in parents[o]) for o in shared):
+          return 'shared-across-nested-sub-fixture-boundary'
+  return 'plain'
+
+
 def judge(v, recs, wd):
   os.makedirs(wd, exist_ok=True)
   for n, r in enumerate(recs):
@@ -168,6 +288,7 @@ def judge(v, recs, wd):
           refc[-it['val']] = refc.get(-it['val'], 0) + 1
     v.mismatch({'clause': vd['failed'], 'gen': r['gen'], 'with_sub_fixtures': bool(r['opts']['sub']),
                 'multi_tag_argument': multi, 'shared_object': any(c_ > 1 for c_ in refc.values()),
+                'sub_fixture_class': sub_fixture_class(r['heap'], r['opts']['sub']),
                 'err': r['err'].split(':')[0]},
                {'heap': r['heap'], 'opts': r['opts'],
                 'message': f'{vd["failed"]}: {r["err"]}\n{r["code"][:700]}\nresult={json.dumps(r["result"])[:300]}'})
@@ -232,6 +353,12 @@ def main():
       states += r.distinct
       trans += r.generated
       for _, _, part in disp.results():
+        recs += part
+    import multiprocessing as mp
+    nlarge = 400 if quick else 6000
+    seeds = [common.seed() * 7919 + k for k in range(nlarge)]
+    with mp.Pool(common.NCPU) as pl:
+      for part in pl.map(larger_work, [seeds[k::common.NCPU] for k in range(common.NCPU)]):
         recs += part
     good = next(r for r in recs if r['out'] == 'emitted' and len(r['heap']) >= 2)
     vneg = common.Verdict(PROP, 'translation_validation')
